@@ -26,7 +26,11 @@ TRUSTED_BASE = [
     "key computation math.Pow(float64(u)*float64(1.0/MaxUint32), 1/float64(w)) is not modelled in floating point: the model runs on the "
     "ORDER of the observed float64 keys (ranks reported by the harness, which recomputes each key with the same Go expression and checks it "
     "bit-for-bit against every stored WrsItem.Key); the run checks that a key is 0.0 exactly when the exact reading says so (weight 0 and "
-    "draw < 2^32-1, or draw 0) and that the float order equals the exact rational order of (u/M)^(1/w) for equal weights and for weights <= 8",
+    "draw < 2^32-1, or draw 0), that equal exact keys give equal float keys, and that the float order is the exact rational order of "
+    "(u/M)^(1/w) ONLY for pairs (weights <= 8, or equal weights of any size) whose exact keys are separated by more than a relative 2^-40 "
+    "(9.1e-13; justified rounding error of the float computation: (2 + ln M) * 2^-53 < 25 * 2^-53 from the two roundings of the base and the "
+    "rounding of the exponent, plus a few ulp assumed for math.Pow - more than 300 times smaller); closer pairs (e.g. draw 2^32-2 / weight 1 "
+    "against draw 2^32-3 / weight 2: relative distance 2.7e-20, equal float64 keys) carry no claim",
     "rand.Shuffle in Wrs.record is not modelled: served records are compared as sets",
     "C11_proportional_partial / C11_key_cdf_set_partial (Proofs/WrsReal.v, Coquelicot) depend on the standard library's real-number axioms "
     "(ALLOWED_AXIOMS); the reading of the integral as a probability assumes independent, continuous uniform draws, exact Pow, and that the "
